@@ -15,6 +15,10 @@ pub fn run(r: &mut Report) {
             let ok = matches!(&res, Ok(Ok((pp, tt))) if pp == p && tt == t);
             r.case("pae-roundtrip", json!({"type": t, "payload": p}), "unpack(pack(t,p)) == Ok((p,t))",
                    format!("{:?}", res.map(|x| x.map_err(|e| e.to_string()))), ok);
+            // the version-guessing entry point decodes what the packer wrote just the same
+            let res2 = no_panic(|| DSSEVersion::try_unpack(&packed));
+            let ok2 = matches!(&res2, Ok(Ok((pp, tt))) if pp == p && tt == t);
+            if !ok2 { r.case("pae-roundtrip-try-unpack", json!({"type": t, "payload": p}), "try_unpack(pack(t,p)) == Ok((p,t))", format!("{:?}", res2.map(|x| x.map_err(|e| e.to_string()))), false); }
             for (b, (t2, p2)) in &seen {
                 if *b == packed && !(t2 == t && p2 == p) {
                     r.case("pae-injective", json!({"a": [t, p], "b": [t2, p2]}), "distinct pairs pack differently",
